@@ -1,6 +1,6 @@
 SPECIFICATION Spec
-CONSTANTS Configs <- MCConfigs OptNames <- MCOptNames SecNames <- MCSecNames Values <- MCValues
-          Gaps <- MCGaps Blanks <- MCBlanks Terms <- MCTerms MaxNodes = 3 MaxDepth = 2
+CONSTANTS Configs <- MCConfigsQ OptNames <- MCOptNames SecNames <- MCSecNames Values <- MCValues
+          Decos <- MCDecos MaxNodes = 2 MaxDepth = 2
 VIEW TextView
 INVARIANTS TypeOK
 POSTCONDITION SameCount
